@@ -35,6 +35,9 @@ fn main() {
     if args[1] == "dump-validator-cases" {
         std::process::exit(props::selftest::dump_cases(&args[2]));
     }
+    if args[1] == "dump-earley-cases" {
+        std::process::exit(props::selftest::dump_earley_cases(&args[2]));
+    }
     if args[1] == "replay" {
         std::process::exit(props::replay::replay_file(&args[2]));
     }
